@@ -74,6 +74,7 @@ class ClassVal:
         self.attrs = attrs
         self.record_fields = None   # for dataclass / NamedTuple style classes: [(name, default or _NODEFAULT)]
         self.frozen = False
+        self.is_namedtuple = False
 
     @property
     def name(self):
@@ -104,6 +105,13 @@ class Instance:
     def __init__(self, cls):
         self.cls = cls
         self.attrs = {}
+
+    def tuple_items(self):
+        """fields of a typing.NamedTuple instance, in order (None for any other instance)"""
+        c = next((k for k in [self.cls] + [b for b in self.cls.bases if isinstance(b, ClassVal)] if getattr(k, 'is_namedtuple', False)), None)
+        if c is None:
+            return None
+        return [self.attrs[n] for n, _ in c.record_fields]
 
     def _dunder(self, name):
         try:
@@ -518,6 +526,7 @@ class Interp:
         if is_record:
             cls.record_fields = annotations
             cls.record_frame = cframe
+            cls.is_namedtuple = any(isinstance(b, ExtRef) and b.path == 'typing.NamedTuple' for b in bases)
         self.bind(frame, st.name, cls)
 
     def st_Return(self, st, frame):
@@ -949,6 +958,16 @@ class Interp:
                     return obj.cls
                 if name == '__dict__':
                     return obj.attrs
+                if obj.tuple_items() is not None and name in ('_fields', '_asdict', '_replace', 'index', 'count'):
+                    from .models import PyCallable
+                    names = [n for n, _ in obj.cls.record_fields]
+                    if name == '_fields':
+                        return tuple(names)
+                    if name == '_asdict':
+                        return PyCallable(lambda interp, a, k, nd: dict(zip(names, obj.tuple_items())))
+                    if name == '_replace':
+                        return PyCallable(lambda interp, a, k, nd: interp.instantiate(obj.cls, [], dict(dict(zip(names, obj.tuple_items())), **k), nd))
+                    return ModelMethod(tuple(obj.tuple_items()), name)
                 raise AbsRaise(ExcVal('AttributeError', (f'{obj.cls.name} has no attribute {name}',)), node)
             if isinstance(v, FuncVal):
                 if v.is_property:
@@ -1173,7 +1192,8 @@ class Interp:
         return out
 
     def ex_GeneratorExp(self, node, frame):
-        return self.ex_ListComp(node, frame)
+        # evaluated eagerly (the repository's generator expressions have no side effects); still an iterator for next()
+        return GenList(self.ex_ListComp(node, frame))
 
     def ex_SetComp(self, node, frame):
         return set(self.ex_ListComp(node, frame))
@@ -1248,6 +1268,13 @@ class Interp:
             return self.call_function(fn.func, [fn.self_val] + list(args), kwargs, node)
         if isinstance(fn, ClassVal):
             return self.instantiate(fn, args, kwargs, node)
+        if isinstance(fn, Instance):
+            try:
+                f = fn.cls.lookup('__call__')
+            except KeyError:
+                raise AbsRaise(ExcVal('TypeError', (f"'{fn.cls.name}' object is not callable",)), node)
+            if isinstance(f, FuncVal):
+                return self.call_function(f, [fn] + list(args), kwargs, node)
         if type(fn).__name__ == 'PartialVal':
             return self.call(fn.func, list(fn.args) + list(args), dict(fn.keywords, **kwargs), node, frame)
         return self.models.call(self, fn, args, kwargs, node, frame)
@@ -1276,6 +1303,13 @@ class Interp:
                     dv = self.models.dataclass_default(self, dv, node)
                     vals[n] = dv
             inst.attrs.update(vals)
+            if not cls.is_namedtuple:
+                try:
+                    post = cls.lookup('__post_init__')
+                except KeyError:
+                    post = None
+                if isinstance(post, FuncVal):
+                    self.call_function(post, [inst], {}, node)
             inst._constructing = False
             return inst
         try:
@@ -1437,16 +1471,26 @@ class Interp:
         return self.models.truth(self, v, node)
 
     def iterate(self, v, node):
+        if isinstance(v, GenList):
+            return list(v[v.pos:])
         if isinstance(v, (list, tuple)):
             return list(v)
         if isinstance(v, (dict, set, frozenset, str, range)):
             return list(v)
         if isinstance(v, GenResult):
-            return list(v.items)
+            # what next() has taken is gone (a full pass is not recorded as exhausting it: models may look twice)
+            return list(v.items[getattr(v, 'pos', 0):])
+        if isinstance(v, Instance) and v.tuple_items() is not None:
+            return v.tuple_items()
         if isinstance(v, (type({}.items()), type({}.values()), type({}.keys()), zip, map, enumerate,
                           reversed, filter)):
             return list(v)
         return self.models.iterate(self, v, node)
+
+
+class GenList(list):
+    """the items of a generator expression: a list for every consumer, an iterator (with a position) for next()"""
+    pos = 0
 
 
 class GenResult:
